@@ -64,3 +64,7 @@ def dsdna_with_json_keys_not_ascending_along_the_strand(f):
 
 def cyclic_molecule_with_residues_outside_the_ring(f):
     return bool(f.get("ring_with_side_chain"))
+
+
+def ff_block_with_nonbonded_span_mixed_nrexcl_and_itp_file_read_later(f):
+    return f.get("dimension") in ("fileorder", "listdir")
